@@ -4,4 +4,6 @@
 # net: second octet of the loopback subnet the check binds (127.<net>.<x>.<y>).
 PROPS = {
     "C14": dict(pkg="c14", run="^TestC14$", shards=4, timeout_quick=300, timeout_thorough=1500, net=114),
+    "C19": dict(pkg="c19", run="^TestC19$", shards=8, timeout_quick=300, timeout_thorough=1500, net=119),
+    "C16": dict(pkg="c16", run="^TestC16$", shards=8, timeout_quick=300, timeout_thorough=1500, net=116),
 }
